@@ -94,6 +94,13 @@ wrapping enum-level format: `{:p}` formats the reference it is given, so under `
 field (`_0 : &Field`) is dereferenced; every other trait formats `&T` like `T`. -/
 def wrappedFieldDeref (tr : Trait) : Bool := tr = Trait.pointer
 
+/-- `trait_name_to_default_placeholder_literal`: the literal through which an attribute-less single
+field is formatted when an enum-level format wraps it. -/
+def defaultPlaceholder : Trait → List Char
+  | .binary => "{:b}".toList | .debug => "{:?}".toList | .display => "{}".toList
+  | .lowerExp => "{:e}".toList | .lowerHex => "{:x}".toList | .octal => "{:o}".toList
+  | .pointer => "{:p}".toList | .upperExp => "{:E}".toList | .upperHex => "{:X}".toList
+
 inductive BodyD where
   | delegate (tr : Trait) (expr : String)
   | write (a : FmtAttr) (derefs : List Name)
